@@ -103,6 +103,8 @@ struct Cb<'a> {
     order: &'a [usize],
     pb: ProgressBar,
     start: u64,
+    /// 0 = pull from the front, 1 = from the back, 2 = alternate per pull (like `rev()` / `zip` do)
+    dir: u8,
 }
 
 impl<'a> ProducerCallback<u32> for Cb<'a> {
@@ -114,7 +116,8 @@ impl<'a> ProducerCallback<u32> for Cb<'a> {
         let mut handed = 0u64;
         for (k, &leaf) in self.order.iter().enumerate() {
             clock::advance_ms(2);
-            match leaves[leaf].next() {
+            let back = self.dir == 1 || (self.dir == 2 && k % 2 == 1);
+            match if back { leaves[leaf].next_back() } else { leaves[leaf].next() } {
                 Some(x) => {
                     got.push(x);
                     handed += 1;
@@ -293,7 +296,7 @@ pub fn run(tier: Tier, shard: Shard, stats: &mut Stats, case: &mut u64) {
             let sizes = tree.leaves();
             let orders = interleavings(&sizes, 5000);
             for f in 0..5usize {
-                for start in [0u64, 3] {
+                for (start, dir) in [(0u64, 0u8), (3, 0), (0, 1), (3, 2)] {
                     for order in &orders {
                         *case += 1;
                         if !shard.owns(*case) {
@@ -301,17 +304,18 @@ pub fn run(tier: Tier, shard: Shard, stats: &mut Stats, case: &mut u64) {
                         }
                         stats.evaluations += 1;
                         stats.transitions += order.len() as u64;
-                        let hist = vec!["rayon with_producer".to_string(), format!("{n} items, split tree {:?}", tree), format!("leaf pull order {:?} (each leaf is pulled once more than it has items)", order), format!("on_finish #{f}, start position {start}")];
+                        let hist = vec!["rayon with_producer".to_string(), format!("{n} items, split tree {:?}", tree), format!("leaf pull order {:?} (each leaf is pulled once more than it has items)", order), format!("on_finish #{f}, start position {start}, pulls from the {}", ["front", "back", "front and back alternately"][dir as usize])];
                         let r = catch(|| -> Result<(u64, bool), (String, String)> {
                             clock::reset();
                             let items: Vec<u32> = (0..n as u32).collect();
                             let pb = ProgressBar::with_draw_target(Some(n as u64 + start), ProgressDrawTarget::hidden()).with_finish(fin(f)).with_position(start);
                             let wrapped = items.clone().into_par_iter().progress_with(pb.clone());
-                            let got = wrapped.with_producer(Cb { tree: &tree, order, pb: pb.clone(), start })?;
+                            let got = wrapped.with_producer(Cb { tree: &tree, order, pb: pb.clone(), start, dir })?;
                             // the same pulls on the bare producer
                             struct Bare<'a> {
                                 tree: &'a Tree,
                                 order: &'a [usize],
+                                dir: u8,
                             }
                             impl<'a> ProducerCallback<u32> for Bare<'a> {
                                 type Output = Vec<u32>;
@@ -319,15 +323,16 @@ pub fn run(tier: Tier, shard: Shard, stats: &mut Stats, case: &mut u64) {
                                     let mut leaves = Vec::new();
                                     split(p, self.tree, &mut leaves);
                                     let mut got = Vec::new();
-                                    for &l in self.order {
-                                        if let Some(x) = leaves[l].next() {
+                                    for (k, &l) in self.order.iter().enumerate() {
+                                        let back = self.dir == 1 || (self.dir == 2 && k % 2 == 1);
+                                        if let Some(x) = if back { leaves[l].next_back() } else { leaves[l].next() } {
                                             got.push(x);
                                         }
                                     }
                                     got
                                 }
                             }
-                            let want = items.clone().into_par_iter().with_producer(Bare { tree: &tree, order });
+                            let want = items.clone().into_par_iter().with_producer(Bare { tree: &tree, order, dir });
                             if got != want {
                                 return Err(("transparency: items seen through the wrapped producer differ".into(), format!("{:?} vs {:?}", got, want)));
                             }
@@ -335,7 +340,7 @@ pub fn run(tier: Tier, shard: Shard, stats: &mut Stats, case: &mut u64) {
                             if p != start + n as u64 {
                                 return Err(("count: final position is not start + number of items".into(), format!("position {p}, expected {}", start + n as u64)));
                             }
-                            Ok((hash_of(&(n, format!("{:?}", tree), order, f)), n > 0 && sizes.len() > 1))
+                            Ok((hash_of(&(n, format!("{:?}", tree), order, f, dir)), n > 0 && sizes.len() > 1))
                         });
                         match r {
                             Err(p) => stats.violation(Violation { class: format!("panic: {}", panic_class(&p)), config: "rayon".into(), history: hist, detail: p }),
